@@ -280,13 +280,15 @@ func (b *built) delivered() []byte {
 
 // scene is everything a case resolves to before the call is made.
 type scene struct {
-	c       Case
-	key     *keys.Key
-	logID   [32]byte
-	chain   *world.Built // submission
-	other   *world.Built
-	entries [][2][]byte // (leaf_input, extra_data)
-	roots   [][]byte
+	replayDS []byte // when set, the response carries these DigitallySigned bytes (an earlier answer's) instead of a fresh signature
+	lastDS   []byte // the DigitallySigned bytes of the answer built last
+	c        Case
+	key      *keys.Key
+	logID    [32]byte
+	chain    *world.Built // submission
+	other    *world.Built
+	entries  [][2][]byte // (leaf_input, extra_data)
+	roots    [][]byte
 }
 
 func newScene(c Case) *scene {
@@ -490,7 +492,7 @@ func (s *scene) fields(muts []Mut) []jf {
 			}
 		}
 		in, _ := rfc6962.STHSignatureInput(0, c.Timestamp, c.TreeSize, root)
-		return []jf{{K: "tree_size", V: jnum(size)}, {K: "timestamp", V: jnum(ts)}, {K: "sha256_root_hash", V: jb64(sroot)}, {K: "tree_head_signature", V: jb64(p.ds(in))}}
+		return []jf{{K: "tree_size", V: jnum(size)}, {K: "timestamp", V: jnum(ts)}, {K: "sha256_root_hash", V: jb64(sroot)}, {K: "tree_head_signature", V: jb64(s.signature(p, in))}}
 	case "AddChain", "AddPreChain":
 		p := &sigPlan{key: s.key, signHash: 4}
 		entry := s.entryFor(c.Method, s.chain)
@@ -544,7 +546,7 @@ func (s *scene) fields(muts []Mut) []jf {
 		if err != nil {
 			panic(err)
 		}
-		return []jf{{K: "sct_version", V: ver}, {K: "id", V: jb64(id)}, {K: "timestamp", V: jnum(ts)}, {K: "extensions", V: jb64(ext)}, {K: "signature", V: jb64(p.ds(in))}}
+		return []jf{{K: "sct_version", V: ver}, {K: "id", V: jb64(id)}, {K: "timestamp", V: jnum(ts)}, {K: "extensions", V: jb64(ext)}, {K: "signature", V: jb64(s.signature(p, in))}}
 	case "GetSTHConsistency":
 		return []jf{{K: "consistency", IsArr: true, Elems: s.hashes(c.NHashes)}}
 	case "GetProofByHash":
@@ -568,6 +570,16 @@ func (s *scene) fields(muts []Mut) []jf {
 	panic("unknown method " + c.Method)
 }
 
+// signature yields the DigitallySigned of the answer: freshly made, or replayed from an earlier answer.
+func (s *scene) signature(p *sigPlan, in []byte) []byte {
+	ds := p.ds(in)
+	if s.replayDS != nil {
+		ds = clone(s.replayDS)
+	}
+	s.lastDS = ds
+	return ds
+}
+
 func (s *scene) hashes(n int) []string {
 	out := []string{}
 	for i := 0; i < n; i++ {
@@ -586,6 +598,11 @@ var oddHeaders = [][2]string{
 }
 
 var redirectCodes = []int{301, 302, 303, 307, 308}
+
+// retryAfterVals: what a busy server may put into Retry-After (virtual time starts at 2000-01-01 UTC, so
+// the 1990 date is past, the 2000-01-01 date is "now" for a first attempt).
+var retryAfterVals = []string{"0", "-1", "-30", "Mon, 01 Jan 1990 00:00:00 GMT", "Sat, 01 Jan 2000 00:00:00 GMT", "soon", "1", "2", "0.5",
+	"99999999999999999999", "9223372037", " 0", "+0", "00", "", "Sat, 01 Jan 2000 00:00:03 GMT", "-9223372036854775808"}
 
 // build resolves one scripted answer. last: the answer repeats for ever.
 func (s *scene) build(r Resp, last bool) *built {
@@ -689,6 +706,11 @@ func (s *scene) build(r Resp, last bool) *built {
 		case "header":
 			h := oddHeaders[m.N%len(oddHeaders)]
 			b.Header[h[0]] = h[1]
+		case "busy":
+			b.Status = []int{503, 429}[m.N%2]
+			b.Header["Retry-After"] = retryAfterVals[m.M%len(retryAfterVals)]
+		case "retry-after":
+			b.Header["Retry-After"] = retryAfterVals[m.M%len(retryAfterVals)]
 		case "location":
 			b.Location = "/elsewhere/ct/v1/x"
 		case "redirect":
